@@ -44,6 +44,9 @@ def setup_dir():
 
 def gen_text(rng, seed):
     k = rng.random()
+    if k < 0.04:
+        from . import ifdefs
+        return ifdefs.soup(rng)        # directive lines in any order and balance, through the whole front end
     if k < 0.25:
         n = rng.choice([0, 1, 2, 5, 20, 80])
         pool = rng.choice(["ascii", "ascii", "punct", "ctrl"])
